@@ -6,6 +6,7 @@ package main
 import (
 	"fmt"
 	"math"
+	"reflect"
 	"sort"
 	"strings"
 	"time"
@@ -17,6 +18,12 @@ type rangeSpec struct {
 	kind string // "range" (every output in [lo,hi]), "bands" (out0 >= out1 >= out2), "nonneg", "minmax"
 	lo   float64
 	hi   float64
+}
+
+// Only quotients have a defining denominator: NaN/Inf is exempt for them and a violation for everything else
+// (a standard deviation, an average true range, a band or a moving extreme of finite prices is a finite number).
+func (r rangeSpec) nanExempt(typeKey string) bool {
+	return r.kind == "range" || typeKey == "volatility.BollingerBandWidth" || typeKey == "volatility.UlcerIndex"
 }
 
 var c15Specs = map[string]rangeSpec{
@@ -37,8 +44,9 @@ func (c *Ctx) c15Case(typeKey string, sp Spec, inputs [][]float64, reg string) {
 	if err != nil {
 		panic(err)
 	}
-	outs, hung := runIndicator(inst, inputs, 400*time.Millisecond)
+	outs, hung := runIndicatorOnce(inst, inputs, time.Second) // a hang is only skipped here, so no confirmation run
 	if hung {
+		c.Count("hung (C03's subject, skipped)/" + typeKey)
 		return
 	}
 	c.Count("type/" + typeKey)
@@ -61,11 +69,25 @@ func (c *Ctx) c15Case(typeKey string, sp Spec, inputs [][]float64, reg string) {
 	}
 	bad := ""
 	kind := "spec"
+	exempt := map[int]bool{}
+	if typeKey == "volume.Mfi" {
+		exempt = mfiExempt(inst, inputs)
+	}
+	if !rs.nanExempt(typeKey) && !specUses(&sp, "trend.NewKama") { // Kama divides by the path length, zero on a flat run
+		for j, o := range outs {
+			for i, v := range o {
+				if !finite(v) {
+					bad = fmt.Sprintf("output %d position %d: %v on finite prices (no defining denominator is zero)", j, i, v)
+					kind = "spec_nan"
+				}
+			}
+		}
+	}
 	switch rs.kind {
 	case "range":
 		for j, o := range outs {
 			for i, v := range o {
-				if finite(v) && (v < rs.lo-eps || v > rs.hi+eps) {
+				if finite(v) && (v < rs.lo-eps || v > rs.hi+eps) && !exempt[i] {
 					bad = fmt.Sprintf("output %d position %d: %v outside [%v, %v]", j, i, v, rs.lo, rs.hi)
 					if v > rs.hi+eps {
 						kind = "spec_above"
@@ -119,6 +141,55 @@ func (c *Ctx) c15Case(typeKey string, sp Spec, inputs [][]float64, reg string) {
 	}
 }
 
+// mfiExempt lists the output positions of the MFI whose defining denominator, the negative money flow summed over the window,
+// is zero. The implementation keeps that sum incrementally (add the new value, subtract the one that leaves), so where the exact
+// sum is zero it holds a rounding residual of either sign and the quotient is meaningless rather than NaN: those are the
+// positions the property exempts, and they are recognised here by summing the window directly.
+func mfiExempt(inst reflect.Value, inputs [][]float64) map[int]bool {
+	period := int(inst.Elem().FieldByName("Sum").Elem().FieldByName("Period").Int())
+	h, l, cl, v := inputs[0], inputs[1], inputs[2], inputs[3]
+	n := len(h)
+	rmf := make([]float64, n)
+	for i := range rmf {
+		rmf[i] = (h[i] + l[i] + cl[i]) / 3 * v[i]
+	}
+	out := map[int]bool{}
+	for j := 0; j+period <= n-1; j++ {
+		zero := true
+		for k := j; k < j+period; k++ {
+			if rmf[k+1] < rmf[k] && rmf[k+1] != 0 {
+				zero = false
+			}
+		}
+		if zero {
+			out[j] = true
+		}
+	}
+	return out
+}
+
+// c15Bars is randBars off the dyadic grid half of the time (an increasing affine map of all prices keeps the series valid but
+// makes sums and squares inexact, so cancellation shows), and with a flat tail a third of the time ("a flat run after movement").
+func (c *Ctx) c15Bars(n int) (Bars, string) {
+	b, reg := c.randBars(n)
+	if c.Rng.IntN(3) == 0 {
+		from := n/3 + c.Rng.IntN(n/3+1)
+		for i := from; i < n; i++ {
+			x := b.Close[from-1]
+			b.Open[i], b.High[i], b.Low[i], b.Close[i] = x, x, x, x
+		}
+		reg += "+flat-tail"
+	}
+	if c.Rng.IntN(2) == 0 {
+		f := func(x float64) float64 { return x*1.0123456789 + 0.0371 }
+		for i := range b.Close {
+			b.Open[i], b.High[i], b.Low[i], b.Close[i] = f(b.Open[i]), f(b.High[i]), f(b.Low[i]), f(b.Close[i])
+		}
+		reg += "+offgrid"
+	}
+	return b, reg
+}
+
 // c15Spec draws a period configuration in the property's domain: paired moving min/max windows are equal (the constructors set
 // them from one period; unequal windows misalign the streams, which is C02's subject), and a pluggable moving average is one
 // that keeps positive prices positive (Hma overshoots and can be negative on positive prices, which inverts centre*(1 +- p)).
@@ -164,7 +235,7 @@ func runC15(c *Ctx) error {
 		c.c15Case(in.Type, in.Spec, inputs, in.Regime)
 		return nil
 	}
-	cfgs := c.N(6, 25)
+	cfgs := c.N(40, 400)
 	for _, typeKey := range typeKeys("indicator") {
 		if _, ok := c15Specs[typeKey]; !ok {
 			continue
@@ -182,8 +253,8 @@ func runC15(c *Ctx) error {
 			}
 			for r := 0; r < 3; r++ {
 				n := 3*idle + 30 + c.Rng.IntN(30)
-				bars, reg := c.randBars(n)
-				g1, _ := c.randBars(n)
+				bars, reg := c.c15Bars(n)
+				g1, _ := c.c15Bars(n)
 				c.c15Case(typeKey, sp, inputsFor(t.InNames, bars, [][]float64{g1.Close, g1.High}), reg)
 			}
 		}
